@@ -56,14 +56,18 @@ claim('C08',
   "Coq theorems: quotas/targets/projects-per-lecturer are spread evenly (length, sum, max-min<=1, larger first, pointwise monotone in "
   "the total so lower<=target<=upper), tie probability 0 gives no parenthesis and 1 one group. File assembly is tied byte-for-byte to "
   "the code from recorded RNG draws (R_genfile) and every written file is re-read by the C10-proved model importer and judged in Coq "
-  "(M_genfile). 'Every length can occur'/tie frequencies are requests to numpy's RNG (checked), its distribution is trusted: partial.",
+  "(M_genfile). Also proved: the lists read back from a generated file ARE the drawn lists (pmin..pmax distinct agents of the other side) "
+  "and every vector of lengths in [pmin, pmax] results from draws honouring the RNG contract. That numpy draws each with positive "
+  "probability, and the tie frequencies, are requests to numpy's RNG (checked), its distribution is trusted: partial.",
   "C08: numpy.random / random.shuffle are oracles (their recorded results are replayed); float formatting of the parameter block is "
   "taken from python's str().")
 claim('C10',
   "Coq theorem import_render: for every abstract file of the documented format, na=2/3, with/without -twopl, with any trailing "
   "lines, the character-level model of the importer returns exactly the denoted instance (dense tie-group ranks, 2-agent embedding, "
-  "ignored second side without -twopl). Proved for single-blank rendering; arbitrary blank/tab runs, leading zeros and missing final "
-  "newline are covered by R_import (all Model attributes, pairs and derived lists compared) only: partial w.r.t. whitespace.")
+  "ignored second side without -twopl); import_render_ws: the same for ANY blank/tab layout and an optional final newline; "
+  "import_render_pad_nonneg: additionally any number of leading zeros on every number (non-negative files; refuted with a witness "
+  "otherwise). Tied to the code by R_import (all Model attributes, pairs and derived lists) and judged by M_import against denote; files "
+  "with more than 1000 agents, str.split()'s other whitespace characters and DOS line ends are exercised by the correspondence.")
 claim('C11',
   "Coq theorems: every printed quantity and listing computed from the assigned pairs equals the value computed from the instance and "
   "the matching line alone (all 11 fields), and the assigned pairs of any 0/1 point are the pairs of its matching line. Tied to the code "
@@ -71,7 +75,9 @@ claim('C11',
 claim('C12',
   "Coq theorems: the inversion lists agent i under j exactly once iff i lists j, and a student's lecturer list is exactly the lecturers "
   "offering a listed project, each once. random.shuffle is a permutation oracle: R_invert/R_genfile check each written list is a "
-  "permutation of the model's inversion; M_second_side compares second-side lines with first-side lines of the same file in Coq.")
+  "permutation of the model's inversion; M_second_side compares second-side lines with first-side lines of the same file in Coq. "
+  "generated_file_second_side: every two-sided file the generator model writes is, line by line up to blanks, the rendering of an abstract "
+  "file whose second-side lists contain each first-side agent that finds the owner acceptable exactly once and nobody else.")
 claim('C14',
   "Coq theorems for an ARBITRARY oracle (any status/values at any solve): all performed solves but the last were Optimal and the "
   "last one's status is reported; when the status is not Optimal or the run timed out the result text does not depend on the variable "
@@ -80,12 +86,17 @@ claim('C14',
   "corner and CBC's own time accounting are outside the model: partial.")
 claim('C15',
   "Coq theorem decide_spec: the model of the argument checks accepts exactly the documented argument sets, never raises, rejects all "
-  "others. Tied to the code by R_genargs (legal vectors and all single-fault perturbations, accepted / exit 2 / exception) and judged by "
+  "others; composed generator (parser -> defaults -> instance writers): every documented set writes exactly numinst files 0.txt.. for any "
+  "draws honouring the RNG contract, any other set ends in the usage error, never an exception. Tied to the code by R_genargs (legal "
+  "vectors and all single-fault perturbations, accepted / exit 2 / exception), R_generator (files byte-exact from the composed model) and judged by "
   "M_genargs (documented rule; no directory may exist after a rejection). F11 repaired. argparse itself is trusted.")
 claim('C16',
   "Coq theorems: the slot-array parser returns the criteria in increasing position order with their extras and refuses out-of-range, "
-  "duplicate positions and -stab without -twopl; the logged optimisation lines are a prefix of that list. Tied to the code by R_opts, "
-  "judged by M_opts / M_refuse (SystemExit before the file is read) / M_info on full runs. Flag-order independence is argparse's (sampled).")
+  "duplicate positions and -stab without -twopl; the logged optimisation lines are a prefix of that list; on the Solver as a whole "
+  "(solver_new = parse, then open/import the file, then the session) the usage error occurs exactly for the unacceptable option sets "
+  "whatever the file is, and an acceptable set on a documented file starts the session on the denoted instance with the criteria in "
+  "position order. Tied to the code by R_opts and R_main (Solver(argv) with the file absent / well-formed / malformed), judged by M_opts / "
+  "M_refuse (SystemExit before the file is read) / M_info on full runs. Flag-order independence is argparse's (sampled).")
 claim('C18',
   "Coq theorems: getters leave the state unchanged and return one fixed text; two runs against any correct MILP oracles (different "
   "tie-breaks allowed) hand over the same problems (same frozen optimum per stage), same status, same log, and print a valid matching. "
@@ -123,8 +134,10 @@ claim('C09',
   "Coq composition theorem generated_file_imports (1 400 lines): for accepted arguments and draws honouring numpy's contract, the "
   "generator model's text is imported character by character, without error, as a WELL-FORMED instance with the requested counts and "
   "sidedness; hence (corollaries) LP mode never fails, reports Optimal iff feasible and prints a valid matching for any correct MILP back "
-  "end, and brute-force mode prints the exact optima. Tied to the code by M_pipeline: Generator(argv) -> Solver with the documented flags "
-  "(all four types, -stab on two-sided, -pc, 0..3 criteria, or -bf), judged by R_import/m_genfile and the C01/C02/C05/C07 monitors.",
+  "end, and brute-force mode prints the exact optima; pipeline_constructs composes the two command lines (generator_run -> solver_new). "
+  "Tied to the code by R_pipeline (on generator output: importer, every integer program, brute-force text equal to the model's) and "
+  "M_pipeline: Generator(argv) -> Solver with the documented flags (all four types, -stab on two-sided, -pc, 0..3 criteria, or -bf), "
+  "judged by R_import/m_genfile and the C01/C02/C05/C07 monitors.",
   "C09: numpy RNG contract (distinct choice, permutation shuffle) is the hypothesis draws_contract; CBC assumed to satisfy milp_ok; file "
   "system effects trusted.")
 
